@@ -54,6 +54,9 @@ pub enum Op {
     /// high-cardinality churn: n distinct comments / expressions / caller-made calendars in a row, half of the
     /// values kept alive, half dropped at once (reaches the eviction / sweep paths of any cache or interner)
     Churn { kind: u8, seed: u32, n: u32, t: i64 },
+    /// two iterators alive at once on one thread, advanced in turns (n intervals each): whatever an iterator keeps
+    /// outside itself (thread-local budgets, scratch state "owned" by the live iterator) is then shared by two of them
+    Zip { e1: String, t1: i64, e2: String, t2: i64, n: u32 },
     /// create `iter_from(t)`, advance it k steps, send it to another thread
     Send { chan: u32, e: String, c: Ctx, t: i64, k: u32 },
     /// receive an iterator and take n more intervals
@@ -549,6 +552,29 @@ pub fn generate(rng: &mut Rng, p: &Pools, mode: &str) -> Workload {
     Workload { mode: mode.to_string(), cfg, sched, prebuilt, threads, schedule: None }
 }
 
+/// text the parser refuses on the pinned tree (constants: nothing here is computed with the library under test)
+pub const REJECTED: &[&str] = &[
+    "Su 10:00-12:00 \"café\"; Mo-",
+    "Mo-Fr 08:00–",
+    "\"unterminated café",
+    "Mo 10:00-12:00 ；",
+    "24/7 é",
+    "Mo-",
+    "10:00-",
+    "Jan 32",
+    "Mo-Fr 08:00-12:00,,",
+    "Mo−Fr 09:00−17:00 || ",
+    "ｗeek 99",
+];
+/// valid expressions whose comments are not ASCII
+pub const NON_ASCII_VALID: &[&str] = &[
+    "Sa 10:00-12:00 \"café\"",
+    "Mo-Fr 09:00-17:00 \"Mittagspause möglich\"",
+    "Su 10:00-12:00 \"日曜日\"",
+    "Tu 10:00-12:00 \"naïve – dash\"; We off \"fermé\"",
+    "Mo-Su 08:00-20:00 \"ｆｕｌｌ　ｗｉｄｔｈ\"",
+];
+
 /// Run indices from here on are "stall runs": the same generator, plus the slow-or-stalled-thread fault
 /// (threads descheduled at seeded function entries of the library, for 1-64 context switches). They are extra
 /// runs appended to every tier, so that the runs 0..n of a tier are exactly what they were without the fault kind.
@@ -562,6 +588,33 @@ pub fn generate_for(rng: &mut Rng, p: &Pools, mode: &str, idx: u64) -> Workload 
         w.cfg.stall_budget = 400;
         w.cfg.hold_permille = *rng.pick(&[0, 50, 300, 800, 1000]);
         // every thread may stall, or one slow thread among fast ones (task 0 is the execution's main thread)
+        if mode != "c10" {
+            // rejected input as a fault: a thread is handed text the parser refuses (truncated, or with characters
+            // outside ASCII in the wrong place), and the very next thing it parses or evaluates is a valid expression
+            // with non-ASCII text of its own -- an error path must leave nothing behind
+            if rng.chance(1, 3) {
+                for _ in 0..rng.range(1, 3) {
+                    let th = rng.usize_below(w.threads.len());
+                    let pos = rng.usize_below(w.threads[th].len() + 1);
+                    let bad = rng.pick(REJECTED).to_string();
+                    let good = rng.pick(NON_ASCII_VALID).to_string();
+                    let t = *rng.pick(&p.instants);
+                    w.threads[th].insert(pos, Op::Parse(bad));
+                    w.threads[th].insert(pos + 1, if rng.chance(1, 2) { Op::Parse(good) } else { Op::Iter { e: good, c: Ctx::Default, t, n: 6 } });
+                }
+            }
+            // two live iterators advanced in turns on one thread; one in ten of these walks for more than a century
+            if rng.chance(1, 3) && !p.dense_exprs.is_empty() {
+                let th = rng.usize_below(w.threads.len());
+                let pos = rng.usize_below(w.threads[th].len() + 1);
+                let long = rng.chance(1, 10);
+                let pick = |rng: &mut Rng| if long || rng.chance(1, 2) { rng.pick(&p.dense_exprs).clone() } else { rng.pick(&p.exprs).clone() };
+                let (e1, e2) = (pick(rng), pick(rng));
+                let (t1, t2) = (*rng.pick(&p.instants), *rng.pick(&p.instants));
+                let n = if long { rng.range(60_000, 90_000) as u32 } else { rng.range(3, 40) as u32 };
+                w.threads[th].insert(pos, Op::Zip { e1, t1, e2, t2, n });
+            }
+        }
         w.cfg.stall_tasks = if rng.chance(1, 2) { u32::MAX } else { 1 << (1 + rng.usize_below(w.threads.len().max(1)) % 31) };
     }
     w
